@@ -301,6 +301,27 @@ def make_model(mspec):
     return q
 
   import qkeras as qk
+  if mspec.get("lazy"):
+    # a Sequential model WITHOUT an input shape: nothing (no layer, no
+    # quantizer) is built until the first batch of fit arrives
+    seq_layers = []
+    for i, l in enumerate(mspec["layers"]):
+      t, name = l["t"], "l%d" % i
+      if t == "qdense":
+        seq_layers.append(QDense(3, kernel_quantizer=qz(l.get("kq"), (i, "k")),
+                                 bias_quantizer=qz(l.get("bq"), (i, "b")),
+                                 name=name))
+      elif t == "qdense_act":
+        seq_layers.append(QDense(3, kernel_quantizer=qz(l.get("kq"), (i, "k")),
+                                 bias_quantizer=qz(l.get("bq"), (i, "b")),
+                                 activation=qz(l.get("aq"), (i, "a")),
+                                 name=name))
+      elif t == "qact":
+        seq_layers.append(QActivation(qz(l.get("aq"), (i, "a")), name=name))
+      else:
+        raise HarnessError("lazy model layer " + t)
+    seq_layers.append(keras.layers.Dense(2, name="out"))
+    return keras.Sequential(seq_layers, name="lazy")
   IMG = ("qconv", "qdw", "qsep", "qpool")
   conv = any(l["t"] in IMG for l in mspec["layers"])
   seq = any(l["t"] in ("qrnn", "qbidir") for l in mspec["layers"])
@@ -607,7 +628,9 @@ def execute_t(scn, known, stop):
     if not ok:
       return ctx.result()
     oracle = SchedOracle(ctx, model)
-    state = {"probe": np.ones((2,) + tuple(model.input_shape[1:]), np.float32)}
+    in_shape = (4,) if scn["world"].get("lazy") else tuple(
+        model.input_shape[1:])
+    state = {"probe": np.ones((2,) + in_shape, np.float32)}
     cb = None
     cbspec = None
     for i, op in enumerate(scn["ops"]):
@@ -638,6 +661,8 @@ def execute_t(scn, known, stop):
           run_fit_sim(ctx, model, cb, cbspec, oracle, op, state)
         else:
           run_fit_real(ctx, model, cb, cbspec, oracle, op, state)
+      elif k == "LOSSFIT":
+        run_loss_fit(ctx, model, op)
       elif k == "PREDICT":
         y_eager = np.asarray(model(state["probe"], training=False).numpy())
         state["called"] = True
@@ -677,6 +702,69 @@ def execute_t(scn, known, stop):
   finally:
     set_phase(0)
   return ctx.result()
+
+
+def run_loss_fit(ctx, model, op):
+  """What the TRACED train step computes with: a real fit with learning rate 0
+  (weights never move) and one batch per epoch, so the loss Keras reports for
+  epoch e is a pure function of the factor the compiled step used at that
+  step.  Expected: the same batch evaluated eagerly with every knob set to the
+  shadow schedule's value for that step.  On a lazily built model the
+  quantizers do not exist as variables before the first batch, which is the
+  "variable-backed mode used during training" at its most delicate."""
+  tf = tf_setup()
+  import tf_keras as keras
+  cbspec = dict(op["cb"])
+  ok, cb = guard(ctx, "scheduler|construct", build_callback, cbspec)
+  if not ok:
+    return
+  epochs = int(op.get("epochs", 5))
+  g = np.random.Generator(np.random.PCG64(int(op.get("dseed", 0))))
+  x = g.standard_normal((2, 4)).astype(np.float32) * 1.5
+  y = g.standard_normal((2, 2)).astype(np.float32)
+  model.compile(optimizer=keras.optimizers.SGD(0.0), loss="mse")
+  ctx.fault("real_fit_lr0_loss_probe")
+  ok, hist = guard(ctx, "scheduler|real-fit", lambda: model.fit(
+      x, y, batch_size=2, epochs=epochs, steps_per_epoch=1, verbose=0,
+      shuffle=False, callbacks=[cb]), always=True)
+  set_phase(0)
+  if not ok:
+    return
+  got = [float(v) for v in hist.history["loss"]]
+  knobs = knob_quantizers(model)
+  if not knobs:
+    return
+  # shadow schedule: one update opportunity per epoch (= per step)
+  cur = 0.0
+  want = []
+  for e in range(epochs):
+    t = cbspec["initial"] + e
+    if t % cbspec["update_freq"] == 0:
+      cur = expected_factor(t, cbspec["start"], cbspec["finish"],
+                            cbspec["exponent"])
+    want.append(cur)
+  exp_loss = {}
+  for f in sorted(set(want)):
+    for _, _, q in knobs:
+      q.update_qnoise_factor(np.float32(f))
+    yy = np.asarray(model(tf.constant(x), training=True).numpy(), np.float64)
+    exp_loss[f] = float(np.mean((yy - y) ** 2))
+  set_phase(0)
+  ctx.checked()
+  ctx.probe("traced_train_step_loss_compared", epochs)
+  if len(set(round(v, 7) for v in exp_loss.values())) < 2:
+    ctx.probe("loss_does_not_depend_on_factor")
+    return
+  for e in range(epochs):
+    w_ = exp_loss[want[e]]
+    if abs(got[e] - w_) > 1e-4 * max(1.0, abs(w_)):
+      ctx.violation("scheduler|train-step-ignores-scheduled-factor",
+                    "epoch %d: the compiled train step reports loss %r, the "
+                    "same batch with every knob at the scheduled factor %r "
+                    "gives %r; losses per factor %r; cb=%r lazy=%r" % (
+                        e, got[e], want[e], w_, exp_loss, cbspec,
+                        model.name == "lazy"))
+      return
 
 
 def run_fit_real(ctx, model, cb, cbspec, oracle, op, state):
@@ -973,7 +1061,7 @@ RULE = ("two scenario families. Q: 1-3 knob-bearing quantizers + seeded ops "
         "world bucket)")
 REAL = ["qkeras.quantizers qnoise paths", "BaseQuantizer.build/"
         "update_qnoise_factor", "qkeras.callbacks.QNoiseScheduler",
-        "QDense/QConv2D/QActivation", "tf_keras Model.fit (REALFIT ops)"]
+        "QDense/QConv2D/QActivation", "tf_keras Model.fit (REALFIT and LOSSFIT ops)"]
 STUB = ["Keras training loop in FIT ops (callback events emitted by the "
         "simulator's step clock; weights not trained)", "tf.random.uniform seam"]
 
@@ -988,11 +1076,92 @@ def generate(rng):
   r = rng.random()
   if r < 0.55:
     return gen_q(rng)
+  if rng.chance(0.06):
+    return gen_loss(rng)
   return gen_t(rng, real=rng.chance(0.08))
 
 
+def gen_loss(rng):
+  """A small dense world (lazily built or functional) under the real training
+  loop with the loss probe."""
+  def wq():
+    c = rng.pick(["quantized_bits", "quantized_bits", "quantized_po2",
+                  "quantized_linear"])
+    kw = {"bits": rng.pick([2, 3, 4])}
+    if c != "quantized_po2":
+      kw["alpha"] = 1.0
+      kw["integer"] = rng.pick([0, 1])
+    return {"cls": c, "kw": kw}
+
+  def aq():
+    c = rng.pick(["quantized_relu", "quantized_bits", "quantized_relu_po2",
+                  "quantized_hswish"])
+    kw = {"bits": rng.pick([3, 4])}
+    if c in ("quantized_relu", "quantized_bits", "quantized_hswish"):
+      kw["integer"] = 1
+    if c == "quantized_bits":
+      kw["alpha"] = 1.0
+    return {"cls": c, "kw": kw}
+  layers = []
+  for _ in range(rng.randrange(1, 3)):
+    t = rng.pick(["qdense", "qdense_act", "qact"])
+    l = {"t": t}
+    if t != "qact":
+      l["kq"] = wq()
+      if rng.chance(0.5):
+        l["bq"] = wq()
+    if t != "qdense":
+      l["aq"] = aq()
+    layers.append(l)
+  cb = gen_cb(rng)
+  cb["start"] = rng.randrange(0, 3)
+  cb["finish"] = cb["start"] + rng.pick([0, 1, 2, 3])
+  cb["initial"] = rng.pick([0, 0, 1])
+  cb["update_freq"] = rng.pick([1, 1, 2])
+  return {"engine": "T", "seed": rng.subseed(),
+          "world": {"layers": layers, "lazy": rng.chance(0.6)},
+          "ops": [{"k": "LOSSFIT", "epochs": rng.randrange(3, 7), "cb": cb,
+                   "dseed": rng.subseed()}]}
+
+
+def directed_loss():
+  """Lazily built and functional models under the real training loop with the
+  loss probe."""
+  out = []
+  qb = {"cls": "quantized_bits", "kw": {"bits": 3, "integer": 0, "alpha": 1.0}}
+  worlds = {
+      "bits": [{"t": "qdense", "kq": qb, "bq": qb}],
+      "relu-act": [{"t": "qdense_act", "kq": qb, "aq": {
+          "cls": "quantized_relu", "kw": {"bits": 3, "integer": 1}}}],
+      "qact-po2": [{"t": "qdense", "kq": {"cls": "quantized_po2",
+                                          "kw": {"bits": 3}}},
+                   {"t": "qact", "aq": {"cls": "quantized_relu_po2",
+                                        "kw": {"bits": 3}}}],
+      "linear": [{"t": "qdense", "kq": {"cls": "quantized_linear",
+                                        "kw": {"bits": 3, "alpha": 1.0}}}],
+      "hswish": [{"t": "qdense", "kq": qb},
+                 {"t": "qact", "aq": {"cls": "quantized_hswish",
+                                      "kw": {"bits": 4, "integer": 1}}}],
+  }
+  cbs = [{"start": 1, "finish": 3, "freq_type": "step", "update_freq": 1,
+          "initial": 0, "exponent": 2.0},
+         {"start": 0, "finish": 2, "freq_type": "epoch", "update_freq": 1,
+          "initial": 0, "exponent": 1.0},
+         {"start": 1, "finish": 4, "freq_type": "step", "update_freq": 2,
+          "initial": 0, "exponent": 3.0, "use_ste": False}]
+  for name, layers in sorted(worlds.items()):
+    for lazy in (True, False):
+      for ci, cb in enumerate(cbs):
+        out.append({"engine": "T", "label": "directed:loss-probe:%s:%s:cb%d" % (
+            name, "lazy" if lazy else "functional", ci), "seed": 1,
+                    "world": {"layers": layers, "lazy": lazy},
+                    "ops": [{"k": "LOSSFIT", "epochs": 6, "cb": cb,
+                             "dseed": 5}]})
+  return out
+
+
 def directed():
-  return directed_q() + directed_t()
+  return directed_q() + directed_t() + directed_loss()
 
 
 def simplify(scn):
